@@ -536,12 +536,117 @@ func (r *runner) maturity() {
 			}
 		}
 		addr := k.Addr([]int{chain.AddrV1, chain.AddrV2}[h%2])
+		// in-block: every output the creating transactions of THIS block produce, spent by a later transaction of the
+		// same block (the parent is then looked up among the block's own creations, not in the accumulator / supplement)
+		if len(bc.V1)+len(bc.V2) > 0 {
+			wc := w.Clone()
+			b0, bs0 := wc.BuildBlock(bc.V1, bc.V2, chain.BlockOpts{AbsTime: plannedTime(r.spec, h), MinerAddr: &addr})
+			if err, p := wc.Apply(b0, bs0); err == nil && p == nil {
+				var before []chain.Use
+				for i := range bc.V1 {
+					before = append(before, chain.Use{Name: "creator", V1: &bc.V1[i]})
+				}
+				for i := range bc.V2 {
+					before = append(before, chain.Use{Name: "creator", V2: &bc.V2[i]})
+				}
+				skip := map[types.SiacoinOutputID]bool{b0.ID().FoundationOutputID(): true}
+				for i := range b0.MinerPayouts {
+					skip[b0.ID().MinerOutputID(i)] = true
+				}
+				for _, id := range chain.SortedIDs(wc.Store.SC) {
+					se := wc.Store.SC[types.SiacoinOutputID(id)]
+					if _, old := w.Store.SC[se.ID]; old || skip[se.ID] || se.SiacoinOutput.Value.IsZero() || !(isDelayedID(bc, se.ID) || isOrdinaryID(bc, se.ID)) {
+						continue // only what the block's TRANSACTIONS create (expiry payouts, miner payout, subsidy come after them)
+					}
+					cl := k.ClassOf(se.SiacoinOutput.Address)
+					want := se.MaturityHeight <= h
+					kind := "ordinary output"
+					if se.MaturityHeight > h || (r.spec.Maturity == 0 && isDelayedID(bc, se.ID)) {
+						kind = "delayed output"
+					}
+					eph := se.Copy()
+					eph.StateElement = types.StateElement{LeafIndex: types.UnassignedLeafIndex}
+					if r.v1ok(h) && len(bc.V2) == 0 && (cl == chain.AddrV1 || cl == chain.AddrV1b || cl == chain.AddrFnd) {
+						u := w.UseV1SC(eph, 1)
+						u.Before, u.SuppSC = before, nil
+						r.probe(w, kind+" spent in the block that creates it (v1 spender)", h, int64(se.MaturityHeight), u, want)
+					}
+					if r.v2ok(h) && cl >= 0 && cl != chain.AddrVoid {
+						u := w.UseV2SC(eph, 1)
+						u.Before = before
+						r.probe(w, kind+" spent in the block that creates it (v2 spender)", h, int64(se.MaturityHeight), u, want)
+						if !want && h >= r.spec.Ephemeral {
+							// the same with a claimed maturity height of 0 (from the ephemeral-output height on the claimed
+							// parent must equal the created one; below it the legacy rule does not compare - not asserted)
+							lie := eph.Copy()
+							lie.MaturityHeight = 0
+							u2 := w.UseV2SC(lie, 2)
+							u2.Before = before
+							r.probe(w, "delayed output spent in the block that creates it under a claimed maturity of 0 (v2 spender)", h, int64(se.MaturityHeight), u2, false)
+						} else if !want {
+							r.c.Count("legacy_claimed_maturity_not_asserted", 1)
+						}
+					}
+				}
+			}
+		}
 		b, bs := w.BuildBlock(bc.V1, bc.V2, chain.BlockOpts{AbsTime: plannedTime(r.spec, h), MinerAddr: &addr})
 		if err, p := w.Apply(b, bs); err != nil || p != nil {
 			r.c.Violate("C08|honest-rejected|maturity-history", fmt.Sprintf("history block rejected at %d: %v %v", h, err, p), probeCase{Net: r.spec, Rule: "history", Height: h, Seed: r.c.Seed})
 			return
 		}
 	}
+}
+
+// isOrdinaryID: is id an ordinary siacoin output of one of the block's transactions?
+func isOrdinaryID(bc *chain.BlockCtx, id types.SiacoinOutputID) bool {
+	for _, t := range bc.V1 {
+		for i := range t.SiacoinOutputs {
+			if t.SiacoinOutputID(i) == id {
+				return true
+			}
+		}
+	}
+	for _, t := range bc.V2 {
+		txid := t.ID()
+		for i := range t.SiacoinOutputs {
+			if t.SiacoinOutputID(txid, i) == id {
+				return true
+			}
+		}
+	}
+	return false
+}
+
+// isDelayedID: is id one of the delayed outputs (siafund claims, contract payouts) of the block's transactions?
+func isDelayedID(bc *chain.BlockCtx, id types.SiacoinOutputID) bool {
+	for _, t := range bc.V1 {
+		for _, in := range t.SiafundInputs {
+			if in.ParentID.ClaimOutputID() == id {
+				return true
+			}
+		}
+		for _, sp := range t.StorageProofs {
+			for i := 0; i < 4; i++ {
+				if sp.ParentID.ValidOutputID(i) == id {
+					return true
+				}
+			}
+		}
+	}
+	for _, t := range bc.V2 {
+		for _, in := range t.SiafundInputs {
+			if in.Parent.ID.V2ClaimOutputID() == id {
+				return true
+			}
+		}
+		for _, r := range t.FileContractResolutions {
+			if r.Parent.ID.V2RenterOutputID() == id || r.Parent.ID.V2HostOutputID() == id {
+				return true
+			}
+		}
+	}
+	return false
 }
 
 // contracts: revision / proof / expiration windows, every (creation height, a, b) shape, every probe height.
